@@ -137,9 +137,49 @@ def _einsum(tensors, out):
         args.append(np.asarray(a))
         args.append([sym.setdefault(l, len(sym)) for l in labels])
     if len(sym) > 50:
-        raise core.HarnessError("too many labels for the einsum denotation: %d" % len(sym))
+        return _pairwise(tensors, out)
     args.append([sym[l] for l in out])
     return np.einsum(*args, optimize="greedy")
+
+
+def _pairwise(tensors, out):
+    """Same denotation for networks with more labels than numpy.einsum has
+    symbols: contract two operands at a time (the pair sharing most labels),
+    summing a label only when no other operand and not the output carries it
+    (so hyper labels stay correct); each step is a two-operand numpy.einsum
+    over local symbols."""
+    ops = [(np.asarray(a), tuple(ls)) for a, ls in tensors]
+    out = tuple(out)
+    while len(ops) > 1:
+        best = None
+        for i in range(len(ops)):
+            si = set(ops[i][1])
+            for j in range(i + 1, len(ops)):
+                n = len(si & set(ops[j][1]))
+                size = ops[i][0].size * ops[j][0].size
+                key = (-n, size)
+                if best is None or key < best[0]:
+                    best = (key, i, j)
+        _, i, j = best
+        (a, la), (b, lb) = ops[i], ops[j]
+        rest = [ops[k] for k in range(len(ops)) if k not in (i, j)]
+        elsewhere = set(out)
+        for _, ls in rest:
+            elsewhere |= set(ls)
+        keep = [l for l in dict.fromkeys(la + lb) if l in elsewhere]
+        loc = {}
+        for l in la + lb:
+            loc.setdefault(l, len(loc))
+        if len(loc) > 50:
+            raise core.HarnessError("too many labels on one pair for the einsum denotation: %d" % len(loc))
+        c = np.einsum(a, [loc[l] for l in la], b, [loc[l] for l in lb], [loc[l] for l in keep])
+        ops = rest + [(c, tuple(keep))]
+    a, la = ops[0]
+    loc = {l: n for n, l in enumerate(dict.fromkeys(la))}
+    for l in out:
+        if l not in loc:
+            raise KeyError(l)
+    return np.einsum(a, [loc[l] for l in la], [loc[l] for l in out])
 
 
 def _scan(tn, gauges=None):
@@ -849,7 +889,7 @@ def p_nonlocal(w, st):
     p.call = lambda: fn(G, where, **kw)
     p.newref = _vec_apply(w, _flagged(G, st.get("f", "n")), where)
     p.tol = RTOL if method in ("direct", "lazy") else TOL_COMPRESS
-    if method in ("zipup-first", "zipup-oversample") and (min(where), max(where)) != (0, len(w.sites) - 1):
+    if not p.root and method in ("zipup-first", "zipup-oversample") and (min(where), max(where)) != (0, len(w.sites) - 1):
         p.root = "submpo-inner-permute"
     return p
 
